@@ -90,14 +90,15 @@ func WriteHeader(h *protocol.ResponseHeader, w network.Writer) error {
 	header := h.Header()
 	h.SetHeaderLength(len(header))
 	// header is the scratch buffer of h, which the next Set or Header call overwrites,
-	// and the body is produced by the application before the flush: copy it instead of
-	// handing it over by reference
-	buf, err := w.Malloc(len(header))
-	if err != nil {
-		return err
+	// and the body is produced by the application before the flush. WriteBinary copies
+	// small buffers but keeps those of 4 KiB and more by reference: hand it a private
+	// copy of a large head. (Not Malloc: a reservation of more than 8 KiB leaves a tail
+	// node that ReadFrom cannot reuse, which truncates a body stream sent after it.)
+	if len(header) >= 4096 {
+		header = append(make([]byte, 0, len(header)), header...)
 	}
-	copy(buf, header)
-	return nil
+	_, err := w.WriteBinary(header)
+	return err
 }
 
 // ConnectionUpgrade returns true if 'Connection: Upgrade' header is set.
